@@ -323,7 +323,7 @@ pub fn replay(v: &Value, path: &str) -> i32 {
 
 /// libFuzzer entry: bytes -> text (bounded: the check is cubic in the length).
 pub fn fuzz_one(data: &[u8]) {
-    let s = String::from_utf8_lossy(&data[..data.len().min(20)]).into_owned();
+    let s = String::from_utf8_lossy(&data[..data.len().min(14)]).into_owned();
     let mut ev = Evidence::new("C13", Tier::Thorough, 0, "fuzz");
     let mut cx = Ctx { ev: &mut ev, get_forms: true };
     if let Some(v) = check_string(&s, &mut cx) {
